@@ -192,7 +192,7 @@ def mkidx(base, items):
         els = base[1:]
         if -len(els) <= k < len(els):
             return els[k]
-        raise Unsup("tuple index out of range")
+        return ("oob", base, items)        # IndexError at run time
     if is_tag(base, "tuple", "list") and len(items) == 1 and is_slice(items[0]) and all(is_const(x) for x in items[0][1:]):
         lo, hi, st = (x[2] for x in items[0][1:])
         return (base[0],) + tuple(base[1:][slice(lo, hi, st)])
@@ -281,8 +281,12 @@ def show(t, depth=0):
         return f"<obj{t[1]}{'[' + ', '.join(show(x, d) for x in t[3]) + ']' if t[3] else ''}>"
     if k == "phi":
         return f"({show(t[2], d)} if {show(t[1], d)} else {show(t[3], d)})"
-    if k == "upd":
+    if k in ("upd", "mayupd"):
         return f"{show(t[1], d)}{{[{', '.join(show(x, d) for x in t[2])}] <- {show(t[3], d)}}}"
+    if k == "unboundlocal":
+        return f"<unbound local {t[1]}>"
+    if k == "oob":
+        return f"<index out of range: {show(t[1], d)}[{', '.join(show(x, d) for x in t[2])}]>"
     if k == "alloc":
         return t[1]
     if k == "dict":
